@@ -274,6 +274,8 @@ SHAPES = {
     "version 3 program (no subroutines yet)": "#pragma version 3\ntxn Amount\nbz z\nint 0\nreturn\nz:\nint 1\nreturn\n",
     "program without a version line": "txn Amount\nint 0\n==\n",
     "instructions the optimisation detectors report": "#pragma version 6\nint 0\ngtxns Amount\npop\ntxn GroupIndex\ngtxns Amount\npop\ntxna Accounts 0\npop\ntxn GroupIndex\ngtxnsa ApplicationArgs 0\npop\nint 1\nreturn\n",
+    "call as the last instruction, the callee returns": "#pragma version 6\nb main\nf:\nint 1\nretsub\nmain:\ncallsub f\n",
+    "group index computed by a subroutine": "#pragma version 6\ncallsub idx\nint 1\n+\ngtxns RekeyTo\nglobal ZeroAddress\n==\nassert\nint 1\nreturn\nidx:\ntxn GroupIndex\nretsub\n",
     "subroutine that jumps back to its own entry": "#pragma version 6\ncallsub f\ncallsub f\nint 1\nreturn\nf:\ntxn Amount\nbz out\nint 1\npop\nb f\nout:\nretsub\n",
     # the assembler accepts retsub anywhere; executed outside a subroutine it fails (nothing to return to)
     "retsub in the main program": "#pragma version 6\ntxn Amount\nbz ok\nretsub\nok:\nint 1\nreturn\n",
